@@ -91,4 +91,235 @@ theorem drLoop_eq (ix : Index) (lo hi : Int) (live : List KeyEntry) (hs : Sorted
         have h1 := hmem x (List.mem_cons_of_mem _ hx)
         simp [h1]
 
+
+/-! ### the outcome for one key -/
+
+def spanKE (ke : KeyEntry) : Option (Int × Int) :=
+  match ke.entries.head?, ke.entries.getLast? with
+  | some a, some b => some (a.MinTime, b.MaxTime)
+  | _, _ => none
+
+inductive Outcome where
+  | skip
+  | full
+  | recd (ts : List TimeRange) (gone : Bool)
+
+def outcome (ix : Index) (lo hi : Int) (ke : KeyEntry) : Outcome :=
+  match spanKE ke with
+  | none => .skip
+  | some (mn, mx) =>
+    if lo > mx || hi < mn then .skip
+    else if lo ≤ mn && hi ≥ mx then .full
+    else
+      let newTs := sortTR (tombRange ix ke.key ++ [⟨lo, hi⟩])
+      .recd newTs (decide ((window newTs).1 ≤ mn) && decide ((window newTs).2 ≥ mx))
+
+def Outcome.gone : Outcome → Bool
+  | .skip => false
+  | .full => true
+  | .recd _ g => g
+
+def Outcome.recorded : Outcome → Option (List TimeRange)
+  | .recd ts _ => some ts
+  | _ => none
+
+def lk (m : List (Key × List TimeRange)) (k : Key) : Option (List TimeRange) := (m.find? (·.1 = k)).map (·.2)
+
+theorem tombRange_eq_lk (ix : Index) (k : Key) : tombRange ix k = (lk ix.tombs k).getD [] := by
+  unfold tombRange lk; cases ix.tombs.find? _ <;> rfl
+
+theorem mapSet_absent (m : List (Key × List TimeRange)) (k : Key) (v : List TimeRange)
+    (h : lk m k = none) : mapSet m k v = m ++ [(k, v)] := by
+  induction m with
+  | nil => rfl
+  | cons p m ih =>
+    obtain ⟨k', v'⟩ := p
+    simp only [lk, List.find?_cons] at h
+    by_cases hk : k' = k
+    · simp [hk] at h
+    · simp only [hk, decide_false] at h
+      simp only [mapSet, hk, if_false, List.cons_append]
+      rw [ih (by simpa [lk] using h)]
+
+theorem lk_mapSet (m : List (Key × List TimeRange)) (k k' : Key) (v : List TimeRange) :
+    lk (mapSet m k v) k' = if k' = k then some v else lk m k' := by
+  induction m with
+  | nil =>
+    simp only [mapSet, lk, List.find?_cons, List.find?_nil]
+    by_cases h : k = k'
+    · simp [h]
+    · have : ¬ k' = k := fun e => h e.symm
+      simp [h, this]
+  | cons p m ih =>
+    obtain ⟨k0, v0⟩ := p
+    simp only [mapSet]
+    by_cases h0 : k0 = k
+    · subst h0
+      simp only [if_true, lk, List.find?_cons]
+      by_cases h : k0 = k'
+      · simp [h]
+      · have : ¬ k' = k0 := fun e => h e.symm
+        simp [h, this]
+    · simp only [h0, if_false, lk, List.find?_cons]
+      by_cases h : k0 = k'
+      · have : ¬ k' = k := by rw [← h]; exact h0
+        simp [h, this]
+      · simp only [h, decide_false]
+        have := ih
+        simp only [lk] at this
+        exact this
+
+/-- the loop body on a key whose range list is not yet in the call-local map -/
+theorem drBody_outcome (ix : Index) (lo hi : Int) (ke : KeyEntry) (acc : DRAcc)
+    (h : lk acc.tombs ke.key = none) :
+    drBody ix lo hi ke acc =
+      match outcome ix lo hi ke with
+      | .skip => (acc, false)
+      | .full => ({ acc with full := ke.key :: acc.full }, true)
+      | .recd ts g => ({ full := if g then ke.key :: acc.full else acc.full, tombs := acc.tombs ++ [(ke.key, ts)] }, g) := by
+  unfold drBody outcome spanKE
+  cases h0 : ke.entries.head? with
+  | none => simp
+  | some e0 =>
+    cases hN : ke.entries.getLast? with
+    | none => simp
+    | some eN =>
+      simp only
+      by_cases c1 : (decide (lo > eN.MaxTime) || decide (hi < e0.MinTime)) = true
+      · simp [c1]
+      · simp only [c1, Bool.false_eq_true, if_false]
+        by_cases c2 : (decide (lo ≤ e0.MinTime) && decide (hi ≥ eN.MaxTime)) = true
+        · simp [c2]
+        · simp only [c2, Bool.false_eq_true, if_false]
+          have hf : acc.tombs.find? (fun x => decide (x.1 = ke.key)) = none := by simpa [lk] using h
+          simp only [hf, List.nil_append]
+          rw [mapSet_absent _ _ _ h]
+          by_cases c3 : (decide ((window (sortTR (tombRange ix ke.key ++ [⟨lo, hi⟩]))).1 ≤ e0.MinTime) &&
+              decide ((window (sortTR (tombRange ix ke.key ++ [⟨lo, hi⟩]))).2 ≥ eN.MaxTime)) = true
+          · simp [c3]
+          · simp [c3]
+
+
+/-! ### the fold over the visited keys -/
+
+def goneKeys (ix : Index) (lo hi : Int) (T : List KeyEntry) : List Key :=
+  (T.filter fun ke => (outcome ix lo hi ke).gone).map (·.key)
+
+def recList (ix : Index) (lo hi : Int) (T : List KeyEntry) : List (Key × List TimeRange) :=
+  T.filterMap fun ke => (outcome ix lo hi ke).recorded.map fun ts => (ke.key, ts)
+
+theorem lk_append_single (m : List (Key × List TimeRange)) (k k' : Key) (v : List TimeRange)
+    (h : lk m k' = none) (hne : k ≠ k') : lk (m ++ [(k, v)]) k' = none := by
+  simp only [lk, List.find?_append] at h ⊢
+  have hm : m.find? (fun x => decide (x.1 = k')) = none := by simpa using h
+  simp [hm, hne]
+
+theorem sorted_key_inj {l : List KeyEntry} (hs : SortedKE l) {a b : KeyEntry} (ha : a ∈ l) (hb : b ∈ l)
+    (h : a.key = b.key) : a = b := by
+  induction l with
+  | nil => cases ha
+  | cons x l ih =>
+    have hx := List.pairwise_cons.mp hs
+    rcases List.mem_cons.mp ha with rfl | ha' <;> rcases List.mem_cons.mp hb with rfl | hb'
+    · rfl
+    · have := hx.1 b hb'; rw [h] at this; simp [klt_irrefl] at this
+    · have := hx.1 a ha'; rw [h] at this; simp [klt_irrefl] at this
+    · exact ih hx.2 ha' hb'
+
+theorem fold_char (ix : Index) (lo hi : Int) (T : List KeyEntry) (hs : SortedKE T) :
+    ∀ acc0 : DRAcc, (∀ ke ∈ T, lk acc0.tombs ke.key = none) →
+      T.foldl (perKey ix lo hi) acc0 =
+        { full := (goneKeys ix lo hi T).reverse ++ acc0.full, tombs := acc0.tombs ++ recList ix lo hi T } := by
+  induction T with
+  | nil => intro acc0 _; simp [goneKeys, recList]
+  | cons ke rest ih =>
+    intro acc0 h0
+    have hx := List.pairwise_cons.mp hs
+    have hne : ∀ x ∈ rest, ke.key ≠ x.key := fun x hx' => klt_ne (hx.1 x hx')
+    simp only [List.foldl_cons, perKey]
+    rw [drBody_outcome ix lo hi ke acc0 (h0 ke List.mem_cons_self)]
+    cases ho : outcome ix lo hi ke with
+    | skip =>
+      simp only
+      rw [ih hx.2 acc0 (fun x hx' => h0 x (List.mem_cons_of_mem _ hx'))]
+      simp [goneKeys, recList, List.filter_cons, List.filterMap_cons, ho, Outcome.gone, Outcome.recorded]
+    | full =>
+      simp only
+      rw [ih hx.2 { acc0 with full := ke.key :: acc0.full } (fun x hx' => h0 x (List.mem_cons_of_mem _ hx'))]
+      simp [goneKeys, recList, List.filter_cons, List.filterMap_cons, ho, Outcome.gone, Outcome.recorded]
+    | recd ts g =>
+      simp only
+      rw [ih hx.2 { full := if g = true then ke.key :: acc0.full else acc0.full, tombs := acc0.tombs ++ [(ke.key, ts)] }
+        (fun x hx' => lk_append_single _ _ _ _ (h0 x (List.mem_cons_of_mem _ hx')) (hne x hx'))]
+      cases g <;>
+        simp [goneKeys, recList, List.filter_cons, List.filterMap_cons, ho, Outcome.gone, Outcome.recorded]
+
+theorem lk_foldl_mapSet (L : List (Key × List TimeRange)) (hnd : (L.map (·.1)).Nodup) :
+    ∀ (m0 : List (Key × List TimeRange)) (k : Key),
+      lk (L.foldl (fun m p => mapSet m p.1 p.2) m0) k = (lk L k).orElse fun _ => lk m0 k := by
+  induction L with
+  | nil => intro m0 k; simp [lk]
+  | cons p L ih =>
+    intro m0 k
+    obtain ⟨kp, vp⟩ := p
+    simp only [List.map_cons, List.nodup_cons] at hnd
+    simp only [List.foldl_cons]
+    rw [ih hnd.2, lk_mapSet]
+    by_cases hk : kp = k
+    · subst hk
+      have hfind : L.find? (fun x => decide (x.1 = kp)) = none := by
+        simp only [List.find?_eq_none]
+        intro x hx
+        simp only [decide_eq_true_eq]
+        intro e
+        exact hnd.1 (by rw [← e]; exact List.mem_map_of_mem hx)
+      simp [lk, List.find?_cons, hfind]
+    · have hk' : ¬ k = kp := fun e => hk e.symm
+      simp [hk', lk, List.find?_cons, hk]
+
+theorem delete_fields (ix : Index) (ks : List Key) :
+    (delete ix ks).tombs = ix.tombs ∧ (delete ix ks).all = ix.all ∧ (delete ix ks).minKey = ix.minKey ∧
+    (delete ix ks).maxKey = ix.maxKey ∧ (delete ix ks).minTime = ix.minTime ∧ (delete ix ks).maxTime = ix.maxTime := by
+  unfold delete; cases sortKeys ks <;> simp
+
+/-- the main branch of `DeleteRange`, as list comprehensions -/
+theorem deleteRange_main (ix : Index) (h : IndexInv ix) (keys : List Key) (lo hi : Int)
+    (hk : keys ≠ []) (hfull : ¬ (lo = minInt64 ∧ hi = maxInt64)) (hin : ¬ (lo > ix.maxTime ∨ hi < ix.minTime)) :
+    let T := ix.live.filter fun ke => decide (ke.key ∈ keys)
+    (deleteRange ix keys lo hi).live = ix.live.filter (fun ke => !decide (ke.key ∈ goneKeys ix lo hi T)) ∧
+    (deleteRange ix keys lo hi).tombs = (recList ix lo hi T).foldl (fun m p => mapSet m p.1 p.2) ix.tombs ∧
+    (deleteRange ix keys lo hi).all = ix.all ∧ (deleteRange ix keys lo hi).minKey = ix.minKey ∧
+    (deleteRange ix keys lo hi).maxKey = ix.maxKey ∧ (deleteRange ix keys lo hi).minTime = ix.minTime ∧
+    (deleteRange ix keys lo hi).maxTime = ix.maxTime := by
+  intro T
+  have hT : (ix.live.filter fun ke => decide (ke.key ∈ sortKeys keys)) = T := by
+    apply List.filter_congr
+    intro x _
+    simp [mem_sortKeys]
+  have hTs : SortedKE T := List.Pairwise.sublist (List.filter_sublist) h.sortedLive
+  have hacc : drLoop ix lo hi ix.live (sortKeys keys) {} =
+      { full := (goneKeys ix lo hi T).reverse, tombs := recList ix lo hi T } := by
+    rw [drLoop_eq ix lo hi ix.live h.sortedLive _ _ (sortKeys_sorted keys), hT]
+    rw [fold_char ix lo hi T hTs {} (by intro ke _; rfl)]
+    simp
+  unfold deleteRange
+  have e1 : keys.isEmpty = false := by cases keys <;> simp_all
+  have e2 : (decide (lo = minInt64) && decide (hi = maxInt64)) = false := by
+    simp only [Bool.and_eq_false_iff, decide_eq_false_iff_not]
+    by_cases h1 : lo = minInt64
+    · right; intro h2; exact hfull ⟨h1, h2⟩
+    · left; exact h1
+  have e3 : (decide (lo > ix.maxTime) || decide (hi < ix.minTime)) = false := by
+    simp only [Bool.or_eq_false_iff, decide_eq_false_iff_not]
+    exact ⟨fun h1 => hin (Or.inl h1), fun h2 => hin (Or.inr h2)⟩
+  simp only [e1, Bool.false_eq_true, if_false, e2, e3, hacc, List.reverse_reverse]
+  by_cases hg : (goneKeys ix lo hi T).reverse.isEmpty = true
+  · have hg' : goneKeys ix lo hi T = [] := by simpa using hg
+    simp only [hg, if_true, hg']
+    refine ⟨?_, rfl, rfl, rfl, rfl, rfl, rfl⟩
+    symm; apply List.filter_eq_self.mpr; intro x _; simp
+  · simp only [hg, Bool.false_eq_true, if_false]
+    obtain ⟨d1, d2, d3, d4, d5, d6⟩ := delete_fields ix (goneKeys ix lo hi T)
+    exact ⟨delete_live ix h _, by rw [d1], d2, d3, d4, d5, d6⟩
+
 end Influx.Tsm
